@@ -63,7 +63,28 @@ template <typename T> struct f_cb_awaiter : cocls::awaiter {
     static cocls::suspend_point<void> fire(cocls::awaiter *, void *ctx) noexcept { static_cast<f_cb_awaiter *>(ctx)->on_release(); return {}; }
 };
 
+// A "bystander": a coroutine of the waiter's own thread that the waiter made ready (discarded suspend point) just BEFORE it awaits the
+// contended future, so that it sits in that thread's ready queue while the registration on the contended future races with the
+// resolver. It is a waiter too (of a private, already resolved future / of its own start): it must run exactly once.
+struct f_bystander {
+    cocls::future<int> g; std::optional<cocls::promise<int>> gp;
+    int mode = 0; // 0 none, 1 spawned child not yet started, 2 child parked on g and released by the waiter, 3 both
+    std::atomic<int> ran{0};
+    bool queued_at_registration = false;
+};
+inline cocls::async<void> f_by_child(f_bystander &B) { B.ran.fetch_add(1, std::memory_order_relaxed); co_return; }
+inline cocls::async<void> f_by_parked(f_bystander &B) { int v = co_await B.g; (void)v; B.ran.fetch_add(1, std::memory_order_relaxed); }
+// runs INLINE in the waiter coroutine (coroutine mode), directly in front of the co_await on the contended future
+#define F_BY_PREPARE(B) \
+    if ((B).mode & 2) { \
+        (B).gp.emplace((B).g.get_promise()); \
+        co_await f_by_parked(B).detach();   /* runs the child until it parks on g */ \
+        (*(B).gp)(1);                       /* suspend point discarded: the child is ready and queued behind the running coroutine */ \
+    } \
+    if ((B).mode & 1) f_by_child(B).detach();   /* discarded: queued, not started */ \
+    (B).queued_at_registration = (B).mode && (B).ran.load(std::memory_order_relaxed) == 0;
 template <typename T> struct fut_round {
+    f_bystander by[3];
     std::unique_ptr<cocls::future<T>> f;
     std::optional<cocls::promise<T>> prom;
     int ncont = 0, nwait = 0;
@@ -81,6 +102,7 @@ template <typename T> struct fut_round {
 
 template <typename T> cocls::async<void> f_w_coro(fut_round<T> &X, int wi) {
     f_wrec &rec = X.w[wi];
+    F_BY_PREPARE(X.by[wi])
     try {
         if constexpr (std::is_void_v<T>) { co_await *X.f; rec.o.state = PS_VALUE; }
         else {
@@ -95,6 +117,7 @@ template <typename T> cocls::async<void> f_w_coro(fut_round<T> &X, int wi) {
 }
 template <typename T> cocls::async<void> f_w_hasvalue(fut_round<T> &X, int wi) {
     f_wrec &rec = X.w[wi];
+    F_BY_PREPARE(X.by[wi])
     bool hv = co_await X.f->has_value();
     rec.hv = hv ? 1 : 0;
     rec.ready_at_release = X.f->ready();
@@ -207,7 +230,11 @@ void future_round(const vf::opts &o, vf::report &R, vf::team &T_, uint64_t rn, u
         desc += std::string(fa_name(X.action[c])) + (X.entry[c] == 0 ? "" : X.action[c] == FA_EXC ? (X.entry[c] == 1 ? "[set_exception]" : "[unhandled_exception]") : X.action[c] == FA_NONE ? "" : "[set_value]") + ",";
     }
     desc += " W:";
-    for (int w = 0; w < X.nwait; w++) { X.wkind[w] = (int)r.below(FW_NKINDS); desc += std::string(fw_name(X.wkind[w])) + ","; }
+    for (int w = 0; w < X.nwait; w++) {
+        X.wkind[w] = (int)r.below(FW_NKINDS); desc += std::string(fw_name(X.wkind[w]));
+        if ((X.wkind[w] == FW_CORO || X.wkind[w] == FW_HASVALUE) && r.chance(1, 3)) { X.by[w].mode = 1 + (int)r.below(3); desc += "+bystander" + std::to_string(X.by[w].mode); }
+        desc += ",";
+    }
     std::string plan = T_.plan_by([&](int tid) { return tid < X.ncont ? future_sites_resolver() : future_sites_waiter(); }, r, X.ncont + X.nwait);
     vf::set_crash_ctx(R.prop.c_str(), "future_mt", o.seed, rn, (desc + " ; " + plan).c_str());
     T_.round([&](int tid) {
@@ -260,6 +287,10 @@ void future_round(const vf::opts &o, vf::report &R, vf::team &T_, uint64_t rn, u
         if (!(rec.o == expect) && e2.empty()) e2 = std::string(fw_name(X.wkind[w])) + " waiter observed " + rec.o.str() + " instead of " + expect.str();
         if (X.wkind[w] == FW_HASVALUE && e2.empty() && rec.hv != (expect.state == PS_CANCELED ? 0 : 1)) e2 = "co_await has_value() returned " + std::to_string(rec.hv);
     }
+    for (int w = 0; w < X.nwait; w++) if (X.by[w].mode && e2.empty()) {
+        int want = (X.by[w].mode & 1) + ((X.by[w].mode >> 1) & 1), got = X.by[w].ran.load();
+        if (got != want) { e2 = "coroutines the waiter had made ready before it awaited the future ran " + std::to_string(got) + " times, expected " + std::to_string(want) + " (a ready coroutine of the waiter's thread was lost or duplicated while the waiter registered)"; corrupt = corrupt || got < want; }
+    }
     if (!e1.empty() && (groups & FUT_C01)) R.violation("monitor:resolution|future_mt", e1, witness());
     if (!e2.empty() && (groups & FUT_C02)) R.violation("monitor:wakeup|future_mt", e2, witness());
     if (!e1.empty() && !(groups & FUT_C01) && (groups & FUT_C02) && e2.empty()) { /* other group's business */ }
@@ -292,6 +323,7 @@ void future_round(const vf::opts &o, vf::report &R, vf::team &T_, uint64_t rn, u
     R.cls("waiter_parked_before_resolution", parked); R.cls("waiter_lost_subscribe_race_to_ready", lostrace); R.cls("waiter_found_ready", early_ready);
     R.cls(std::string("winner_") + (winner >= 0 ? fa_name(X.action[winner]) : "promise_destruction"));
     R.cls(std::string("type_") + ftype_name<T>());
+    for (int w = 0; w < X.nwait; w++) if (X.by[w].queued_at_registration) R.cls("waiter_registered_with_ready_coroutines_queued_on_its_thread");
     if (callers >= 2) R.cls("rounds_with_competing_resolvers");
     if (chain >= 2) R.cls("resolution_with_chain_of_2plus");
     if (T_.stalls_fired_last_round()) R.cls("rounds_with_stall_fired");
